@@ -51,7 +51,7 @@ class Contract:
                  props=(), hooks=None, locals=None, defaults=None, is_property=False,
                  uf_params=None, assumed=False, note="", ghost=None, exc_props=None,
                  stop_ensures=(), bounded=(), globals=None, hints=None, yields_range=None,
-                 recursion_measure=None, result_expr=None, sets=None):
+                 recursion_measure=None, result_expr=None, sets=None, closure=None):
         self.name = name
         self.short = name.split(".")[-1]
         self.params = OrderedDict(params)     # name -> type descriptor
@@ -91,6 +91,7 @@ class Contract:
         self.result_expr = result_expr
         # constructor-style effect: field := expression over the arguments (exact, no havoc)
         self.sets = dict(sets or {})
+        self.closure = dict(closure or {})     # closure cell -> type (mutable state of a nested def)
 
     def default_value(self, nm, engine):
         from .engine import State
